@@ -591,6 +591,7 @@ FACETS = [
           doc="every nuclide of atomic_masses.csv: mass, Z and weight of its element"),
     Facet("near_miss_names", check_near_miss, strategy=lambda tier: near_miss_cases(),
           quick=(4, 900), thorough=(16, 4000), min_nontrivial=0.15,
+          fuzz_runs=100000, fuzz_instrument=("scippneutron.atoms",),
           doc="edited names must be rejected unless they are rows themselves (then exact data)"),
     Facet("cache_sequences", check_sequence, strategy=lambda tier: sequence_cases(),
           quick=(2, 300), thorough=(16, 1000), min_nontrivial=0.5,
